@@ -110,8 +110,11 @@ impl fmt::Debug for Incomplete {
 impl fmt::Display for Incomplete {
     fn fmt(&self, f: &mut fmt::Formatter) -> fmt::Result {
         let mut skip_next = false;
+        // Number of nodes of complete types (which are displayed by `Final`) shown so far.
+        // They count towards the maximum length just like our own nodes.
+        let mut n_final_nodes = 0;
         for data in self.verbose_pre_order_iter::<NoSharing>(Some(MAX_DISPLAY_DEPTH)) {
-            if data.index > MAX_DISPLAY_LENGTH {
+            if data.index + n_final_nodes > MAX_DISPLAY_LENGTH {
                 write!(f, "... [truncated type after {} nodes]", MAX_DISPLAY_LENGTH)?;
                 return Ok(());
             }
@@ -151,7 +154,10 @@ impl fmt::Display for Incomplete {
                 }
                 (Incomplete::Sum(..), _) => f.write_str(" + ")?,
                 (Incomplete::Product(..), _) => f.write_str(" × ")?,
-                (Incomplete::Final(ref fnl), _) => fnl.fmt(f)?,
+                (Incomplete::Final(ref fnl), _) => {
+                    let budget = MAX_DISPLAY_LENGTH.saturating_sub(data.index + n_final_nodes);
+                    n_final_nodes += fnl.fmt_bounded(f, budget)?;
+                }
             }
         }
         Ok(())
